@@ -120,7 +120,21 @@ type RegionScatterer struct {
 	name           string
 	cluster        opt.Cluster
 	ordinaryEngine engineContext
-	specialEngines map[string]engineContext
+	// Scatter is called by concurrent ScatterRegion requests: specialEnginesMu guards the map.
+	specialEnginesMu sync.Mutex
+	specialEngines   map[string]engineContext
+}
+
+// getSpecialEngine returns the context of a special engine, creating it on first use.
+func (r *RegionScatterer) getSpecialEngine(engine string) engineContext {
+	r.specialEnginesMu.Lock()
+	defer r.specialEnginesMu.Unlock()
+	ctx, ok := r.specialEngines[engine]
+	if !ok {
+		ctx = newEngineContext(r.ctx, filter.NewEngineFilter(r.name, engine))
+		r.specialEngines[engine] = ctx
+	}
+	return ctx
 }
 
 // NewRegionScatterer creates a region scatterer.
@@ -308,12 +322,7 @@ func (r *RegionScatterer) scatterRegion(region *core.RegionInfo, group string) *
 	targetLeader := r.selectAvailableLeaderStores(group, region, targetPeers, r.ordinaryEngine)
 
 	for engine, peers := range specialPeers {
-		ctx, ok := r.specialEngines[engine]
-		if !ok {
-			ctx = newEngineContext(r.ctx, filter.NewEngineFilter(r.name, engine))
-			r.specialEngines[engine] = ctx
-		}
-		scatterWithSameEngine(peers, ctx)
+		scatterWithSameEngine(peers, r.getSpecialEngine(engine))
 	}
 
 	op, err := operator.CreateScatterRegionOperator("scatter-region", r.cluster, region, targetPeers, targetLeader)
@@ -489,7 +498,7 @@ func (r *RegionScatterer) Put(peers map[uint64]*metapb.Peer, leaderStoreID uint6
 				filter.EngineTiKV).Inc()
 		} else {
 			engine := store.GetLabelValue(filter.EngineKey)
-			r.specialEngines[engine].selectedPeer.Put(storeID, group)
+			r.getSpecialEngine(engine).selectedPeer.Put(storeID, group)
 			scatterDistributionCounter.WithLabelValues(
 				fmt.Sprintf("%v", storeID),
 				fmt.Sprintf("%v", false),
